@@ -177,3 +177,54 @@ pub fn drive_c10ops(a: &Args, out: &mut Out) {
 
 #[allow(dead_code)]
 pub fn unused(_: Item) {}
+
+// ------------------------------------------------------------------ step-level conformance
+
+/// run `f` with the cleanup step tracer installed; returns the recorded steps
+pub fn with_cleanup_trace<T>(f: impl FnOnce() -> T) -> (Option<T>, Vec<Value>) {
+    use std::cell::RefCell;
+    use std::rc::Rc;
+    let steps: Rc<RefCell<Vec<Value>>> = Rc::new(RefCell::new(vec![]));
+    let s2 = steps.clone();
+    similar::verif_hooks::install_cleanup_tracer(Some(Box::new(move |arm, ptr, ops| {
+        s2.borrow_mut().push(json!([arm, ptr, rec::ops_json(ops)]));
+    })));
+    let r = rec::guarded(f);
+    similar::verif_hooks::install_cleanup_tracer(None);
+    let v = steps.borrow().clone();
+    (r, v)
+}
+
+pub fn drive_steps(a: &Args, out: &mut Out) {
+    let mut rng = Rng::new(a.num("seed", 1));
+    let thorough = a.thorough();
+    // (1) arbitrary scripts through Compact
+    let mut pairs = gen::exhaustive_pairs(2, if thorough { 5 } else { 4 });
+    for _ in 0..(if thorough { 6000 } else { 800 }) {
+        pairs.push(gen::random_pair(&mut rng, if thorough { 40 } else { 20 }));
+    }
+    for (i, (x, y)) in pairs.iter().enumerate() {
+        let o = rec::items(x);
+        let n = rec::items(y);
+        let script = random_script(&mut rng, x, y);
+        let (r, steps) = with_cleanup_trace(|| {
+            let mut d = Compact::new(Capture::new(), &o[..], &n[..]);
+            for op in &script {
+                op.apply_to_hook(&mut d).unwrap();
+            }
+            d.finish().unwrap();
+        });
+        let case = out.next_case();
+        out.emit(&json!({"ev":"cleanup","case":case,"src":"script","old":seq_json(x),"new":seq_json(y),
+            "panic":r.is_none(),"steps":steps}));
+        // (2) the scripts the real algorithms produce
+        if i % 2 == 0 {
+            for alg in crate::fam_h::ALGS {
+                let (r, steps) = with_cleanup_trace(|| similar::capture_diff_slices(alg, &o, &n));
+                let case = out.next_case();
+                out.emit(&json!({"ev":"cleanup","case":case,"src":crate::fam_h::alg_name(alg),
+                    "old":seq_json(x),"new":seq_json(y),"panic":r.is_none(),"steps":steps}));
+            }
+        }
+    }
+}
